@@ -51,7 +51,8 @@ func extractCodec(repo string) (string, error) {
 		}
 		sb.WriteString("]\n\n")
 	}
-	a, err := skeletonsOf(repo, "generate/types.go", []string{"goStructType.FlattenedFields"})
+	a, err := skeletonsOf(repo, "generate/types.go", []string{"goStructType.FlattenedFields", "goStructType.WriteDefinition",
+		"goStructType.NeedsMarshaling", "goStructField.NeedsMarshaling", "goInterfaceType.WriteDefinition"})
 	if err != nil {
 		return "", err
 	}
